@@ -5,8 +5,9 @@ from rules.common import field_is, has_call, derives, value_sources, macro_named
 
 UNITS = ['lib/map.c', 'lib/hashtable.c', 'lib/skiplist.c', 'lib/trie.c']
 DECIDES = ('Decides that every map fills every interface slot, that remove/count are tied to the map\'s own presence predicate, '
-           'that no valued node is freed without the DELETED notification, and the notifier fan-out guards; dictionary equivalence '
-           'over histories and iteration order are not decided.')
+           'that no valued node is freed without the DELETED notification, the notifier fan-out guards, that iter_free drops the '
+           'parked reference, that the skiplist header is never announced, the trie\'s child visiting order (exhaustively over the 256 '
+           'byte values) and that notifier add/delete resolve keys alike; dictionary equivalence over histories is not decided.')
 RULES = {
     'R1': 'each constructor stores a function into all slots of struct qb_map',
     'R2': 'rm: the count decrement and the TRUE return need the looked-up node to be present by that map\'s liveness predicate (hashtable/skiplist: key match; trie: live node)',
@@ -15,8 +16,12 @@ RULES = {
     'R6': 'trie: a node\'s key is extended in place only if it carries no value, no notifier and no child; a notifier stays on the node of the key it was registered for',
     'R7': 'key comparison is strcmp on the whole keys: skiplist op_search decides only on strcmp(node key, search key); hashtable lookup/put match on strcmp == 0',
     'R5': 'notify: callback under tn->events & event; FREE callback under (DELETED|REPLACED) and tn->events & FREE',
+    'R8': 'abandoning an iteration loses no notification: every implementation\'s iter_free drops the reference on the node the iterator is positioned on (the delete/free notifications of a removed entry are issued when its last reference goes)',
+    'R9': 'no notification for something that is not an entry: the skiplist node destructor does not announce a deletion for the list header',
+    'R10': 'trie iteration is in ascending unsigned-byte order (as strcmp): the order in which trie_node_next visits child indexes, mapped back through the character-to-index function used by new_child_node, is 0..255 ascending (evaluated exhaustively over all 256 byte values); the sibling scan continues that same order',
+    'R11': 'trie notifier add and delete resolve the key the same way (exact lookup)',
 }
-FLOORS = {'R1': 3, 'R2': 6, 'R3': 6, 'R4': 6, 'R5': 9, 'R6': 3, 'R7': 4}
+FLOORS = {'R1': 3, 'R2': 6, 'R3': 6, 'R4': 6, 'R5': 9, 'R6': 3, 'R7': 4, 'R8': 3, 'R9': 1, 'R10': 3, 'R11': 1}
 
 MAPS = {
     'hashtable': dict(file='lib/hashtable.c', create='qb_hashtable_create', rm='hashtable_rm_with_hash', put='hashtable_put',
@@ -55,6 +60,10 @@ def run(ctx):
         r5(ctx, name, m)
     r6(ctx)
     r7(ctx)
+    r8(ctx)
+    r9(ctx)
+    r10(ctx)
+    r11(ctx)
 
 
 def _present_atom(name, f, node_vars):
@@ -163,6 +172,18 @@ def r4(ctx, name, m):
                     ctx.viol('R4', 'trie:node-free-site', ev, 'trie node freed outside trie_destroy_node')
             else:
                 note = [c for c in f.calls(m['notify']) if any(cval(unwrap(x)) == DELETED for x in c.args) and f.ev_dominates(c, ev)]
+                if not note:
+                    # the notification may be skipped for the structural header node only (it is not an entry): every path
+                    # to the free passes the notification unless it crosses an edge that says "this node is the header"
+                    notes = [c for c in f.calls(m['notify']) if any(cval(unwrap(x)) == DELETED for x in c.args)]
+
+                    def not_header_edge(fb, t, lab):
+                        if fb.cond is None or lab not in (True, False):
+                            return True
+                        return not any(a_.op == '==' and (last_field(a_.l) == (name, 'header') or last_field(a_.r) == (name, 'header')) for a_ in atoms_of(fb.cond, lab))
+                    if notes:
+                        hits, _e, _n = f.search(('entry',), goal=lambda x, ev=ev: x.d is ev.d, stop=lambda x: any(x.d is c.d for c in notes), edge_filter=not_header_edge)
+                        note = notes if not hits else []
                 ctx.check('R4', '%s:free-after-DELETED:%s' % (name, f.name), bool(note), ev, 'the node is freed only after its DELETED notification',
                           'a node is freed without the DELETED notification (value-release notifier never runs for it)')
     if n == 0:
@@ -316,3 +337,169 @@ def r7(ctx):
     ok = bool(rets) and all(t.uncut_path(r, exact_ok) is None for r in rets)
     ctx.check('R7', 'trie:exact-match-consumes-segment', ok, t, 'an exact lookup only succeeds when the node\'s whole segment was matched',
               'an exact lookup can return a node whose segment extends beyond the key (a longer key answers for a shorter one)')
+
+
+ITF = {'hashtable': ('hashtable_iter_free', 'hashtable_node_deref', ('hashtable_iter', 'node')),
+       'skiplist': ('skiplist_iter_free', 'skiplist_node_deref', ('skiplist_iter', 'n')),
+       'trie': ('trie_iter_free', 'trie_node_deref', ('trie_iter', 'n'))}
+
+
+def r8(ctx):
+    prog = ctx.prog
+    for name, (ff, deref, cur) in ITF.items():
+        f = prog.fn(ff)
+
+        def notparked(fb, t, lab, cur=cur):
+            if fb.cond is None or lab not in (True, False):
+                return True
+            return not any(a.op == '==' and a.rc == 0 and last_field(a.l) == cur for a in atoms_of(fb.cond, lab))
+        _h, exits, _n = f.search(('entry',), stop=lambda ev, deref=deref: ev.kind == 'CALL' and ev.callee == deref, edge_filter=notparked)
+        ctx.check('R8', '%s:iter_free-drops-reference' % name, not exits, f,
+                  'freeing an iterator that is positioned on a node drops its reference',
+                  '%s keeps the reference of the node the iterator is positioned on: after an abandoned iteration a later remove of that entry never destroys '
+                  'the node, so its delete and value-release notifications are never delivered (not even at destroy)' % ff)
+
+
+def r9(ctx):
+    prog = ctx.prog
+    d = prog.fn('skiplist_node_destroy')
+    ann = [ev for ev in d.calls('skiplist_notify') if any(macro_named(a, 'QB_MAP_NOTIFY_DELETED') or cval(unwrap(a)) == DELETED for a in ev.args[2:3])]
+    if not ann:
+        raise AnalysisBroken('skiplist_node_destroy: no DELETED notification')
+    # is the destructor applied to the header at all?
+    on_header = [ev for (g, ev) in prog.callers_of('skiplist_node_destroy') if ev.args and last_field(unwrap(ev.args[0])) == ('skiplist', 'header')]
+    if not on_header:
+        ctx.ok('R9', 'skiplist:header-not-announced', d, 'the node destructor is never applied to the header')
+        return
+
+    def not_header(a, fb):
+        return a.op == '!=' and (last_field(a.l) == ('skiplist', 'header') or last_field(a.r) == ('skiplist', 'header'))
+    ok = all(d.uncut_path(ev, not_header) is None for ev in ann)
+    ctx.check('R9', 'skiplist:header-not-announced', ok, ann[0], 'the deletion notification is skipped for the list header',
+              'destroying the map announces a deletion (twice, plus a value release) for the list header: notifiers are called with a NULL key for an entry that never existed')
+
+
+def _eval(e, env):
+    """value of an integer expression tree under env (var name -> int); None when not evaluable"""
+    e0 = e
+    c = cval(e) if isinstance(e, dict) else None
+    if c is not None and not any(n.get('k') == 'var' for n in walk(e)):
+        return c
+    k = e.get('k')
+    if k == 'cast':
+        v = _eval(e['e'], env)
+        if v is None:
+            return None
+        ty = e.get('ty', '')
+        if ty in ('signed char', 'char'):
+            v &= 0xFF
+            return v - 256 if v >= 128 else v
+        if ty == 'unsigned char':
+            return v & 0xFF
+        return v
+    if k == 'var':
+        return env.get(e['n'])
+    if k == 'mem':
+        return env.get(estr(e))
+    if k == 'int':
+        return cval(e)
+    if k == 'cond':
+        cv_ = _eval(e['c'], env)
+        if cv_ is None:
+            return None
+        return _eval(e['t'] if cv_ else e['f'], env)
+    if k == 'un' and e['op'] == '-':
+        v = _eval(e['e'], env)
+        return -v if v is not None else None
+    if k == 'bin':
+        a, b = _eval(e['l'], env), _eval(e['r'], env)
+        if a is None or b is None:
+            return None
+        op = e['op']
+        return {'+': a + b, '-': a - b, '*': a * b, '==': int(a == b), '!=': int(a != b), '<': int(a < b), '>': int(a > b),
+                '<=': int(a <= b), '>=': int(a >= b), '&&': int(bool(a) and bool(b)), '||': int(bool(a) or bool(b))}.get(op)
+    return None
+
+
+def r10(ctx):
+    prog = ctx.prog
+    # character -> child index, as new_child_node computes it
+    nc = prog.fn('new_child_node')
+    chp = nc.params[2]['n']
+    idxd = [ev for ev in nc.events('DECL') if ev.d.get('init') is not None and any(n.get('k') == 'var' and n['n'] == chp for n in walk(ev.d['init']))]
+    if len(idxd) != 1:
+        raise AnalysisBroken('new_child_node: the index computation was not found')
+    c2i = {}
+    for ch in range(-128, 128):
+        v = _eval(idxd[0].d['init'], {chp: ch})
+        if v is None:
+            raise AnalysisBroken('new_child_node: index expression %s is not evaluable' % estr(idxd[0].d['init']))
+        c2i[ch & 0xFF] = v
+    ok = len(set(c2i.values())) == 256 and min(c2i.values()) >= 0
+    ctx.check('R10', 'trie:char-to-index-injective', ok, idxd[0], 'the 256 byte values get 256 distinct non-negative child indexes',
+              'two byte values share a child index (keys differing in that byte collide)')
+    i2c = {v: k for k, v in c2i.items()}
+    nx = prog.fn('trie_node_next')
+    loops = nx.natural_loops()
+    # the scan variable: the local used to index children[]
+    ivs = {estr(n['i']) for ev in nx.events() for root in (ev.e, ev.rhs, ev.lhs) if root is not None for n in walk(root)
+           if n.get('k') == 'idx' and last_field(n['b']) == ('trie_node', 'children') and unwrap(n['i']).get('k') == 'var'}
+    if len(ivs) != 1:
+        raise AnalysisBroken('trie_node_next: children are indexed by %s' % sorted(ivs))
+    iv = ivs.pop()
+    sts = [ev for ev in nx.events('STORE') if estr(ev.lhs) == iv]
+    # the child scan starts at a constant, or at num_children - 1 (indexes beyond the array have no child: same as starting at 255)
+    def init_val(ev):
+        env = {estr(n): 256 for n in walk(ev.rhs) if n.get('k') == 'mem' and n.get('f') == 'num_children'}
+        return _eval(unwrap(ev.rhs), env)
+    inits = [ev for ev in sts if ev.d['op'] == '=' and ev.rhs is not None and not any(n.get('k') == 'var' and n['n'] == iv for n in walk(ev.rhs)) and
+             not any(n.get('k') == 'mem' and n.get('f') == 'idx' for n in walk(ev.rhs)) and init_val(ev) is not None]
+    upd = [ev for ev in sts if ev.d['op'] in ('--', '++') or (ev.rhs is not None and any(n.get('k') == 'var' and n['n'] == iv for n in walk(ev.rhs)))]
+    sib = [ev for ev in sts if ev.rhs is not None and any(n.get('k') == 'mem' and n.get('f') == 'idx' for n in walk(ev.rhs))]
+    if len(inits) != 1 or not upd:
+        raise AnalysisBroken('trie_node_next: scan variable %s: %d constant initialisations, %d updates' % (iv, len(inits), len(upd)))
+
+    def step(ev, val):
+        if ev.d['op'] == '--':
+            return val - 1
+        if ev.d['op'] == '++':
+            return val + 1
+        return _eval(ev.rhs, {iv: val})
+    # the child scan: start at the constant, apply the update until the index leaves [0, 255]
+    order = []
+    v = init_val(inits[0])
+    seen = set()
+    while v is not None and 0 <= v <= 255 and v not in seen:
+        seen.add(v)
+        order.append(v)
+        v = step(upd[0], v)
+    chars = [i2c.get(i) for i in order]
+    asc = chars == sorted(chars) and None not in chars and len(chars) == 256
+    ctx.check('R10', 'trie:children-visited-in-byte-order', asc, inits[0],
+              'the child scan visits all 256 indexes in ascending order of the byte they stand for',
+              'the child scan visits the bytes in the order %s...: iteration is not in ascending (strcmp) key order - bytes %s come before %s' % (
+                  [hex(c) if c is not None else None for c in chars[:3]], hex(chars[0]) if chars and chars[0] is not None else None,
+                  hex(min(c for c in chars if c is not None)) if any(c is not None for c in chars) else None))
+    # all updates are the same function, and the sibling scan starts one step after the node's own index
+    same = all(all(step(u, k) == step(upd[0], k) for k in range(0, 256)) for u in upd)
+    sib_ok = bool(sib) and all(all(_eval(sv.rhs, {x: k for x in {estr(n) for n in walk(sv.rhs) if n.get('k') == 'mem' and n.get('f') == 'idx'}}) == step(upd[0], k)
+                                   for k in range(0, 256)) for sv in sib)
+    ctx.check('R10', 'trie:sibling-scan-continues-the-order', same and sib_ok, sib[0] if sib else nx,
+              'the sibling scan starts one step behind the node\'s own index and both scans use the same step',
+              'the sibling scan does not continue the child order (siblings are skipped or revisited)')
+
+
+def r11(ctx):
+    prog = ctx.prog
+    modes = {}
+    for fn in ('trie_notify_add', 'trie_notify_del'):
+        f = prog.fn(fn)
+        ls = list(f.calls('trie_lookup'))
+        if not ls:
+            raise AnalysisBroken('%s: no trie_lookup' % fn)
+        modes[fn] = {cval(unwrap(ev.args[2])) for ev in ls}
+    ok = modes['trie_notify_add'] == modes['trie_notify_del'] and all(v is not None and v != 0 for m_ in modes.values() for v in m_)
+    ctx.check('R11', 'trie:notifier-add-del-same-lookup', ok, prog.fn('trie_notify_del'),
+              'notifier add and delete both resolve the key with the exact lookup',
+              'trie_notify_del resolves the key with exact_match=%s but trie_notify_add with %s: deleting a notifier for a key that ends inside another key\'s segment '
+              'removes that other key\'s notifier' % (sorted(modes['trie_notify_del'], key=str), sorted(modes['trie_notify_add'], key=str)))
